@@ -163,9 +163,19 @@ def grow(tree, x):
         pdv = {'ctx': 77, 'data': b'\x02' + b'grown' * 3}
         if not x.data_value_items:
             return None
-        x.data_value_items.append(type(x.data_value_items[0])(pdv['ctx'], pdv['data']))
+        cls = type(x.data_value_items[0])
         tree2 = copy.deepcopy(tree)
-        tree2['pdvs'].append(pdv)
+        if tree['pdvs'][0]['ctx'] % 4 == 1:
+            # same number of items, one of them replaced in place by a longer one
+            x.data_value_items[0] = cls(pdv['ctx'], pdv['data'] + tree['pdvs'][0]['data'])
+            tree2['pdvs'][0] = {'ctx': pdv['ctx'], 'data': pdv['data'] + tree['pdvs'][0]['data']}
+        elif tree['pdvs'][0]['ctx'] % 4 == 3:
+            # ... or its value rewritten
+            x.data_value_items[0].data_value = tree['pdvs'][0]['data'] + b'+tail'
+            tree2['pdvs'][0]['data'] = tree['pdvs'][0]['data'] + b'+tail'
+        else:
+            x.data_value_items.append(cls(pdv['ctx'], pdv['data']))
+            tree2['pdvs'].append(pdv)
         return tree2
     return None
 
